@@ -13,5 +13,6 @@ cd /verif/harness
 [ -f Cargo.lock ] || cp /repo/Cargo.lock Cargo.lock
 export CARGO_NET_OFFLINE=true
 RUSTFLAGS="--cfg samlang_verif" CARGO_TARGET_DIR=/verif/harness/target timeout 3000 cargo build --offline 2>&1 | tail -3
+RUSTFLAGS="--cfg samlang_verif" CARGO_TARGET_DIR=/verif/harness/target timeout 3000 cargo build --offline --release 2>&1 | tail -1
 [ -x /verif/harness/target/debug/vh ] || exit 1
 echo setup-ok
